@@ -1163,6 +1163,69 @@ vlib("forall")(_quant_fn(True))
 vlib("exists")(_quant_fn(False))
 
 
+@vlib("map_has")
+def _map_has(ip, a, k):
+    return a[0].contains(ip, a[1])
+
+
+@vlib("map_has_set")
+def _map_has_set(ip, a, k):
+    return a[0].contains(ip, a[1])
+
+
+@vlib("map_get")
+def _map_get(ip, a, k):
+    return a[0].value_at(term(a[1], a[0].ksort))
+
+
+@vlib("map_same")
+def _map_same(ip, a, k):
+    m1, m2 = a
+    if isinstance(m1, PredSetV):
+        return mk(m1.present == m2.present, "bool")
+    return mk(z3.And(m1.present == m2.present, *[x[0] == y[0] for x, y in zip(m1.comps, m2.comps)]), "bool")
+
+
+@vlib("map_is_update")
+def _map_is_update(ip, a, k):
+    new, old, key, val = a
+    kt = term(key, old.ksort)
+    vs = list(val) if old.is_tuple else [val]
+    return mk(
+        z3.And(
+            new.present == z3.Store(old.present, kt, z3.BoolVal(True)),
+            *[n_[0] == z3.Store(o_[0], kt, term(x, o_[1])) for n_, o_, x in zip(new.comps, old.comps, vs)],
+        ),
+        "bool",
+    )
+
+
+@vlib("set_is_add")
+def _set_is_add(ip, a, k):
+    new, old, x = a
+    return mk(new.present == z3.Store(old.present, term(x, old.ksort), z3.BoolVal(True)), "bool")
+
+
+_UFN = {}
+
+
+@vlib("ufn")
+def _ufn(ip, a, k):
+    """application of an uninterpreted function: ufn("name", "sort", *args)"""
+    name, sort = a[0], a[1]
+    args = a[2:]
+    ts = []
+    for x in args:
+        for y in _flat(ip, x):
+            ts.append(term(y) if not isinstance(y, Opaque) else y.t)
+    key = (name, sort, tuple(t.sort().name() for t in ts))
+    if key not in _UFN:
+        from . import shapes as S_
+
+        _UFN[key] = z3.Function(name, *[t.sort() for t in ts], S_._z3sort(sort))
+    return mk(_UFN[key](*ts), sort) if sort != "str" else Sym(_UFN[key](*ts), "str")
+
+
 @vlib("seq_len")
 def _seq_len(ip, a, k):
     return _len(ip, a, k)
@@ -1171,7 +1234,12 @@ def _seq_len(ip, a, k):
 @vlib("same")
 def _same(ip, a, k):
     """identity: the very same value (for opaque subtrees: equal)"""
-    return ip.is_(a[0], a[1]) if not (isinstance(a[0], Opaque) or isinstance(a[1], Opaque)) else ip.eq(a[0], a[1])
+    x, y = a
+    if x is y:
+        return True
+    if isinstance(x, (Opaque, Rec)) and isinstance(y, (Opaque, Rec)):
+        return ip.eq(x, y)
+    return ip.is_(x, y)
 
 
 @vlib("raises_kind")
